@@ -2,6 +2,7 @@
 known-findings matching, evidence.  Exit codes: 0 held / 1 VIOLATION / 2 harness error."""
 import os, sys, json, time, hashlib, signal, traceback, collections, importlib, faulthandler
 import concurrent.futures as cf
+import concurrent.futures.process
 import multiprocessing as mp
 
 from . import VERIF, REPO
@@ -58,7 +59,8 @@ def guarded_run(mod, plan, wall=60):
     return out
 
 def _worker(args):
-    pid, tier, batch_seed, idxs, wall = args
+    pid, tier, batch_seed, idxs, wall = args[:5]
+    isolate = len(args) > 5 and args[5]      # after a worker died: each run of the chunks that were in flight gets its own process
     import warnings; warnings.simplefilter('ignore')
     mod = load_prop(pid)
     outs = []
@@ -70,7 +72,8 @@ def _worker(args):
             outs.append({'ok': False, 'seed': s, 'violations': [],
                          'error': 'gen_plan: ' + ''.join(traceback.format_exception(type(e), e, e.__traceback__))[-2000:]})
             continue
-        o = guarded_run(mod, plan, wall)
+        o = isolated_run(mod, plan, wall) if isolate else guarded_run(mod, plan, wall)
+        o.setdefault('seed', s)
         if o['violations'] or not o['ok']:
             o['plan'] = plan
         elif i % 97 == 0:
@@ -133,7 +136,11 @@ def isolated_run(mod, plan, wall=60):
             p.kill()
         p.join(5)
     if out is None:
-        out = {'ok': False, 'error': 'isolated run did not answer within %ds (killed)' % (wall + 45), 'violations': []}
+        if p.exitcode is not None and p.exitcode < 0:
+            out = {'ok': False, 'error': 'the process running this plan died with signal %d (interpreter crash)' % (-p.exitcode), 'violations': []}
+        else:
+            out = {'ok': False, 'error': 'isolated run did not answer within %ds (killed)' % (wall + 45), 'violations': []}
+    out.setdefault('seed', plan.get('seed'))
     return out
 
 def reproduces(mod, plan, sig, findings):
@@ -222,10 +229,10 @@ def main(argv=None):
     errors = []
     ctx = mp.get_context('fork')
     faulthandler.dump_traceback_later(cap + 300, exit=True)
-    ex = cf.ProcessPoolExecutor(max_workers=a.workers, mp_context=ctx)
+    exs = [cf.ProcessPoolExecutor(max_workers=a.workers, mp_context=ctx)]
     worker_pids = set()
     def _note_workers():
-        for pid_ in list((getattr(ex, '_processes', None) or {}).keys()): worker_pids.add(pid_)
+        for pid_ in list((getattr(exs[0], '_processes', None) or {}).keys()): worker_pids.add(pid_)
     def _kill_workers(*_):
         _note_workers()
         for pid_ in list(worker_pids):
@@ -237,21 +244,53 @@ def main(argv=None):
     signal.signal(signal.SIGTERM, _on_term)
     signal.signal(signal.SIGINT, _on_term)
     try:
-        futs = []
         pending = collections.deque(jobs)
         live = set()
+        job_of = {}
         stop = False
+        pool_breaks = 0
+        def _pool_broke(lost):
+            # a worker process died (interpreter crash, kill): the executor is unusable and every chunk in flight is lost.
+            # Start a new pool and run those chunks again with one process per run, so that the run that kills its
+            # process is identified (reported as a harness error with its seed) and the others are judged as usual.
+            nonlocal live
+            for f in list(live): lost.append(job_of.pop(f))
+            live = set()
+            try: exs[0].shutdown(wait=False, cancel_futures=True)
+            except Exception: pass
+            _kill_workers(); worker_pids.clear()
+            exs[0] = cf.ProcessPoolExecutor(max_workers=a.workers, mp_context=ctx)
+            for j in lost: pending.appendleft(tuple(j[:5]) + (True,))
+        lost = []
         while pending or live:
-            while pending and len(live) < a.workers * 2 and not stop:
-                live.add(ex.submit(_worker, pending.popleft()))
-            if not live: break
-            _note_workers()
-            done, live = cf.wait(live, timeout=5, return_when=cf.FIRST_COMPLETED)
-            for f in done:
-                try:
-                    outs.extend(f.result())
-                except BaseException as e:
-                    errors.append('worker died: %r' % (e,))
+            try:
+                while pending and len(live) < a.workers * 2 and not stop:
+                    j = pending.popleft()
+                    try:
+                        f = exs[0].submit(_worker, j)
+                    except cf.process.BrokenProcessPool:
+                        pending.appendleft(j); raise
+                    live.add(f); job_of[f] = j
+                if not live: break
+                _note_workers()
+                done, live = cf.wait(live, timeout=5, return_when=cf.FIRST_COMPLETED)
+                lost = []
+                for f in done:
+                    j = job_of.pop(f)
+                    try:
+                        outs.extend(f.result())
+                    except cf.process.BrokenProcessPool:
+                        lost.append(j)
+                    except BaseException as e:
+                        errors.append('worker died: %r' % (e,))
+                if lost: raise cf.process.BrokenProcessPool('lost')
+            except cf.process.BrokenProcessPool:
+                pool_breaks += 1
+                if pool_breaks > 8:
+                    errors.append('the worker pool broke more than 8 times'); break
+                _pool_broke(lost)
+                lost = []
+                continue
             if REAL_MONO() - t0 > cap and not stop:
                 stop = True
                 pending.clear()
@@ -262,7 +301,7 @@ def main(argv=None):
     finally:
         # every result we are going to use has been collected: no worker may outlive the batch (an abandoned pool
         # leaves its workers asleep on the call queue for ever if this process is killed later)
-        ex.shutdown(wait=False, cancel_futures=True)
+        exs[0].shutdown(wait=False, cancel_futures=True)
         _kill_workers()
     faulthandler.cancel_dump_traceback_later()
 
